@@ -1,6 +1,7 @@
 (* Props/C14.v — the theorems that decide C14 (binary reader: no out-of-bounds, exact decoding).
    Statements only; every proof is `exact <lemma>` and is followed by Print Assumptions. *)
-From AV Require Import Base.Prelude Gen.ReaderPrims Model.Reader Proofs.ReaderProofs.
+From AV Require Import Base.Prelude Gen.ReaderPrims Model.Reader Model.ReaderExt Model.ReaderObs
+  Proofs.ReaderProofs Proofs.ReaderObsProofs.
 Open Scope Z_scope.
 
 (* 1. The primitives extracted from the current source satisfy the shape the proofs rely on:
@@ -112,3 +113,171 @@ Example C14_example_run :
        [ORead PU16; OReadArrayStride [PU8] 2 3; OArrGet 1; OArrToVec; ORead PU16; OArrSearch 6]
   = [(Ok [258], 7); (Ok [2], 1); (Ok [1; 6], 1); (Ok [3; 6], 1); (Err Eof, 1); (Ok [1; 1], 1)].
 Proof. vm_compute. reflexivity. Qed.
+
+(* 7. Positions.  ReadScope::base — "the offset of this scope from the start of the scope it was derived
+      from", and the key of ReadScope::read_cache — follows every offset: in range, exactly at the end and
+      past the end (a dangling, empty scope), wrapping modulo 2^64 like the usize it is. *)
+Theorem C14_scope_position : forall m s o,
+  scope_offset m s o = Ok {| base := (base s + o) mod USIZE; data := slice_from (data s) o |}.
+Proof. exact scope_offset_position. Qed.
+Print Assumptions C14_scope_position.
+
+Theorem C14_subscope_position : forall m s o l s',
+  offset_length m s o l = Ok s' ->
+  base s' = (base s + o) mod USIZE /\ data s' = take l (slice_from (data s) o).
+Proof. exact offset_length_position. Qed.
+Print Assumptions C14_subscope_position.
+
+Theorem C14_offset_agrees_with_offset_length : forall m s o l s' s'',
+  offset_length m s o l = Ok s' -> scope_offset m s o = Ok s'' -> base s'' = base s'.
+Proof. exact offset_agrees_with_offset_length. Qed.
+Print Assumptions C14_offset_agrees_with_offset_length.
+
+Theorem C14_cursor_position : forall m c,
+  ctxt_scope m c = Ok {| base := (base (sc c) + off c) mod USIZE; data := slice_from (data (sc c)) (off c) |}.
+Proof. exact ctxt_scope_position. Qed.
+Print Assumptions C14_cursor_position.
+
+(* every scope derived from a window of the root buffer is again a window of the root buffer at its
+   own position (or empty, when the offset went past the end) *)
+Theorem C14_offset_window : forall root m s o s',
+  len root < USIZE -> at_root root s -> 0 <= o -> scope_offset m s o = Ok s' -> at_root root s'.
+Proof. exact at_root_offset. Qed.
+Print Assumptions C14_offset_window.
+
+Theorem C14_subscope_root_window : forall root m s o l s',
+  len root < USIZE -> at_root root s -> 0 <= o -> 0 <= l -> offset_length m s o l = Ok s' -> at_root root s'.
+Proof. exact at_root_offset_length. Qed.
+Print Assumptions C14_subscope_root_window.
+
+(* 8. The read cache.  A cached read returns the big-endian value of the type located at the position of
+      the scope in the root buffer (entirely inside the buffer) and keeps the cache sound; when it fails
+      it is an end-of-data error, nothing was stored, and a direct read fails the same way.  On every
+      scope that holds a value of the type the cache is transparent. *)
+Theorem C14_cache_read : forall root t s ch,
+  bytes_ok root = true -> sinv s -> at_root root s -> cache_ok root ch -> 0 < ty_size t ->
+  match read_cache t s ch with
+  | (Ok v, ch') => value_at root t (base s) v /\ cache_ok root ch'
+  | (Err e, ch') => ch' = ch /\ e = Eof /\ scope_read t s = Err Eof /\ cache_find t (base s) ch = None
+  | _ => False
+  end.
+Proof. exact read_cache_sound. Qed.
+Print Assumptions C14_cache_read.
+
+Theorem C14_cache_transparent : forall root t s ch,
+  bytes_ok root = true -> sinv s -> at_root root s -> cache_ok root ch -> 0 < ty_size t ->
+  ty_size t <= dlen s -> fst (read_cache t s ch) = scope_read t s.
+Proof. exact read_cache_transparent. Qed.
+Print Assumptions C14_cache_transparent.
+
+Theorem C14_cache_miss : forall t s ch,
+  cache_find t (base s) ch = None ->
+  fst (read_cache t s ch) = scope_read t s /\
+  match scope_read t s with
+  | Ok v => cache_find t (base s) (snd (read_cache t s ch)) = Some v
+  | _ => snd (read_cache t s ch) = ch
+  end.
+Proof. exact read_cache_miss. Qed.
+Print Assumptions C14_cache_miss.
+
+Theorem C14_scope_read_exact : forall root t s,
+  bytes_ok root = true -> sinv s -> at_root root s -> 0 < ty_size t ->
+  (ty_size t <= dlen s /\ value_at root t (base s) (decode_ty t (take (ty_size t) (data s))) /\
+   scope_read t s = Ok (decode_ty t (take (ty_size t) (data s))))
+  \/ (dlen s < ty_size t /\ scope_read t s = Err Eof).
+Proof. exact scope_read_exact. Qed.
+Print Assumptions C14_scope_read_exact.
+
+(* 9. Arrays of dependent records (ReadFixedSizeDep), records of size 0 included: the window is exactly
+      len * size bytes at the cursor, read_item i decodes the i-th cell and refuses i >= len, and the
+      iterator behind iter_res / read_to_vec / Debug yields exactly the declared number of items, in
+      order — min(cap, len) of them when the consumer stops after cap. *)
+Theorem C14_dep_array_construction : forall m t c n a c',
+  cinv c -> 0 <= n -> read_array_dep m t c n = Ok (a, c') ->
+  cinv c' /\ dinv a /\ sinv (a_sc a) /\ sc c' = sc c /\ a_len a = n /\ a_ty a = t
+  /\ n * ty_size t < USIZE /\ off c' = off c + n * ty_size t
+  /\ data (a_sc a) = take (n * ty_size t) (drop (off c) (data (sc c)))
+  /\ offset_length m (sc c) (off c) (n * ty_size t) = Ok (a_sc a).
+Proof. exact read_array_dep_inv. Qed.
+Print Assumptions C14_dep_array_construction.
+
+Theorem C14_dep_read_item : forall m a i,
+  dinv a -> sinv (a_sc a) -> bytes_ok (data (a_sc a)) = true -> 0 <= i < a_len a ->
+  dep_read_item m a i = Ok (item a i).
+Proof. exact dep_read_item_exact. Qed.
+Print Assumptions C14_dep_read_item.
+
+Theorem C14_dep_read_item_outside : forall m a i, a_len a <= i -> dep_read_item m a i = Err BadIndex.
+Proof. exact dep_read_item_outside. Qed.
+Print Assumptions C14_dep_read_item_outside.
+
+Theorem C14_dep_iter : forall m a,
+  dinv a -> sinv (a_sc a) -> bytes_ok (data (a_sc a)) = true ->
+  forall cap i, 0 <= i <= a_len a ->
+  dep_iter_take cap m a i =
+    map (fun j => Ok (item a j)) (range i (Nat.min cap (Z.to_nat (a_len a - i)))).
+Proof. exact dep_iter_take_exact. Qed.
+Print Assumptions C14_dep_iter.
+
+Theorem C14_dep_iter_count : forall m a cap,
+  dinv a -> sinv (a_sc a) -> bytes_ok (data (a_sc a)) = true ->
+  length (dep_iter_take cap m a 0) = Nat.min cap (Z.to_nat (a_len a)).
+Proof. exact dep_iter_take_length. Qed.
+Print Assumptions C14_dep_iter_count.
+
+Theorem C14_dep_collect : forall m a cap,
+  dinv a -> sinv (a_sc a) -> bytes_ok (data (a_sc a)) = true ->
+  collect_res (dep_iter_take cap m a 0) =
+    Ok (map (item a) (range 0 (Nat.min cap (Z.to_nat (a_len a))))).
+Proof. exact dep_collect_exact. Qed.
+Print Assumptions C14_dep_collect.
+
+(* 10. ReadArrayCow: iterating the owned form gives back the vector, iterating the borrowed form is
+       iterating the array (C14_array_iter). *)
+Theorem C14_cow_owned_iter : forall m v, cow_to_vec m (CowOwned v) = Ok v.
+Proof. exact cow_to_vec_owned. Qed.
+Print Assumptions C14_cow_owned_iter.
+
+Theorem C14_cow_borrowed_iter : forall m a, window_ok a -> cow_to_vec m (CowBorrowed a) = arr_to_vec m a.
+Proof. exact cow_to_vec_borrowed. Qed.
+Print Assumptions C14_cow_borrowed_iter.
+
+(* 11. The extended machine (the 21 core operations + scope reads, cached reads, ReadScopeOwned,
+       dependent arrays, cow views, Debug, CheckIndex): for every byte buffer, every program and both
+       arithmetic modes the invariant holds in every reachable state and every operation returns a
+       value or an error — no Panic, no OOB.  A cached read returns the value at the scope's position. *)
+Theorem C14_xinit_inv : forall d, len d < USIZE -> bytes_ok d = true -> xinv d (xinit d).
+Proof. exact xinit_inv. Qed.
+Print Assumptions C14_xinit_inv.
+
+Theorem C14_xstep_inv : forall root m st o,
+  xinv root st -> xop_wf o -> xinv root (fst (xstep m st o)) /\ defined (snd (xstep m st o)).
+Proof. exact xstep_inv. Qed.
+Print Assumptions C14_xstep_inv.
+
+Theorem C14_xrun_total : forall root m ops st,
+  xinv root st -> Forall xop_wf ops -> Forall (fun r => defined (fst r)) (xrun m st ops).
+Proof. exact xrun_total. Qed.
+Print Assumptions C14_xrun_total.
+
+Theorem C14_cached_value : forall root m st t v,
+  xinv root st -> 0 < ty_size t -> snd (xstep m st (XReadCache t)) = Ok v ->
+  value_at root t (base (scp (core st))) v.
+Proof. exact xstep_cache_value. Qed.
+Print Assumptions C14_cached_value.
+
+(* non-vacuity: a cached read, a dangling offset (the position moves on, the cached read now fails), an
+   array of three records of size 0 (three items, not more), a cow view *)
+Example C14_example_xrun :
+  xrun Debug (xinit [18; 52; 86; 120])
+       [XCore (OScopeOffset 2); XReadCache [PU16]; XCore (OScopeOffset 10); XReadCache [PU16];
+        XReadArrayDep [] 3; XDepIter; XDepReadItem 3; XReadArrayDep [PU8; PU8] 2; XDepIter;
+        XCore (OReadArray [PU8] 0); XCow true CIter]
+  = [(Ok [2], [4; 0; 2; 2]); (Ok [22136], [4; 0; 2; 2]); (Ok [0], [4; 0; 12; 0]); (Err Eof, [4; 0; 12; 0]);
+     (Ok [3], [4; 0; 12; 0]); (Ok [3], [4; 0; 12; 0]); (Err BadIndex, [4; 0; 12; 0]);
+     (Ok [2], [0; 4; 12; 0]); (Ok [2; 18; 52; 86; 120], [0; 4; 12; 0]);
+     (Ok [0], [0; 4; 12; 0]); (Ok [0], [0; 4; 12; 0])].
+Proof. vm_compute. reflexivity. Qed.
+
+Example C14_example_xinv : xinv [18; 52; 86; 120] (xinit [18; 52; 86; 120]).
+Proof. apply xinit_inv; vm_compute; reflexivity. Qed.
